@@ -663,6 +663,13 @@ func init() {
 	stubs["(time.Time).UnixMilli"] = stubTimeMethod(func(e *Engine, st *State, t TimeV, args []Value, pos token.Pos) Value {
 		return e.timeUnixMilli(st, t)
 	})
+	stubs["(time.Time).UnixNano"] = stubTimeMethod(func(e *Engine, st *State, t TimeV, args []Value, pos token.Pos) Value {
+		return e.timeUnixNano(st, t)
+	})
+	stubs["(time.Time).Unix"] = stubTimeMethod(func(e *Engine, st *State, t TimeV, args []Value, pos token.Pos) Value {
+		e.needCivil(t, "Unix")
+		return e.epochSecond(st, t)
+	})
 	stubs["(time.Time).Before"] = stubTimeMethod(func(e *Engine, st *State, t TimeV, args []Value, pos token.Pos) Value {
 		return e.timeBefore(st, t, args[0].(TimeV))
 	})
@@ -961,15 +968,40 @@ func (e *Engine) timeUnixMilli(st *State, t TimeV) Value {
 			panic(unsupported("UnixMilli of a time whose nanoseconds are not syntactically whole milliseconds"))
 		}
 	}
+	S := e.epochSecond(st, t)
+	return c.BVAdd(c.BVMul(S, e.bv64(1000)), ms)
+}
+
+// timeUnixNano: S*1e9 + ns in wrapping 64-bit arithmetic (overflows for years beyond 2262, like the real one).
+func (e *Engine) timeUnixNano(st *State, t TimeV) Value {
+	c := e.tc
+	e.needCivil(t, "UnixNano")
+	return c.BVAdd(c.BVMul(e.epochSecond(st, t), e.bv64(1000000000)), t.Ns)
+}
+
+// epochSecond: the Unix second of t as a variable ordered consistently with the other times seen and tied to
+// the year ((Y-1970) * 365 d <= S < (Y-1969) * 366 d).
+func (e *Engine) epochSecond(st *State, t TimeV) *Term {
+	c := e.tc
+	for _, r := range st.epochs {
+		if r.t == t {
+			return r.S
+		}
+	}
 	S := c.Fresh("epoch.s", SBV(64))
 	st.assume(e.inRange(S, 0, 1<<40))
+	if e.feasible(st, c.BVSlt(t.Y, e.bv64(1970)), "epoch year") {
+		panic(unsupported("Unix time of a date before 1970"))
+	}
+	yr := c.BVSub(t.Y, e.bv64(1970))
+	st.assume(c.And(c.BVSle(c.BVMul(yr, e.bv64(365*86400)), S), c.BVSlt(S, c.BVMul(c.BVAdd(yr, e.bv64(1)), e.bv64(366*86400)))))
 	for _, r := range st.epochs {
 		lt, gt := e.secBefore(st, t, r.t), e.secBefore(st, r.t, t)
 		st.assume(c.And(c.Implies(lt, c.BVSlt(S, r.S)), c.Implies(gt, c.BVSlt(r.S, S)), c.Implies(c.Not(c.Or(lt, gt)), c.Eq(S, r.S))))
 	}
 	st.epochs = append(st.epochs[:len(st.epochs):len(st.epochs)], epochRec{t, S})
-	e.stubsUsed["Time.UnixMilli: epoch seconds as order-constrained variables (years from 1970 on)"] = true
-	return c.BVAdd(c.BVMul(S, e.bv64(1000)), ms)
+	e.stubsUsed["Time.UnixMilli / UnixNano: epoch seconds as variables ordered like the instants and bounded by the year (from 1970 on)"] = true
+	return S
 }
 
 type epochRec struct {
